@@ -10,7 +10,7 @@ from .common import (BUILD, ROOT, Result, count_lines, driver_path, harness_path
 DRIVER = driver_path("ed")
 HARNESS = harness_path("ed")
 CORPUS = os.path.join(ROOT, "corpus", "ed")
-KEEP = ("CASE", "R ", "S ", "O ", "X ")
+KEEP = ("CASE", "R ", "S ", "O ", "OC ", "X ")
 
 MODEL_DEPS = ["theories/Model/EdInst.vo", "theories/Model/EditorRun.vo"]
 
